@@ -120,7 +120,7 @@ def run_plan(plan):
       T = D.X[Tidx]
     basis_dg = digest(p["basis"]) if isinstance(p["basis"], np.ndarray) else None
     with world.observed() as wl, BasisObserver() as bo, \
-        world.DrawObserver(keep_values=True) as obs:
+        world.DrawObserver(keep_values=True) as obs, world.ConvertObserver() as co:
       try:
         est.fit(*args)
         outcome, exc = "ok", None
@@ -129,7 +129,14 @@ def run_plan(plan):
     ev = dict(cls=cls, outcome=outcome, warn=world.warn_cats(wl))
     events.append(ev)
     if outcome != "ok":
-      raise Violation("fit_raises", "cls=%s,basis=%s,exc=%s" % (cls, shape[1], outcome[4:]),
+      if plan["dataset"].get("kind") == "grid" and not isinstance(p["basis"], np.ndarray):
+        # integer-grid points (many exact duplicates) can make a *generated* basis
+        # degenerate (local LDA on identical points): outside the property's domain
+        raise Inconclusive("generated_basis_on_duplicate_points")
+      why = ""
+      if outcome == "exc:NonPSDError" and co.psd_within_rounding():
+        why = ",psd_within_rounding"
+      raise Violation("fit_raises", "cls=%s,basis=%s,exc=%s%s" % (cls, shape[1], outcome[4:], why),
                       "%s.fit raised %s: %s" % (cls, outcome, str(exc)[:200]))
     if basis_dg is not None and digest(p["basis"]) != basis_dg:
       raise Violation("basis_modified", "cls=%s" % cls, "the caller's basis array was modified")
